@@ -69,7 +69,11 @@ impl RadixType for f32 {
         // Floats are sign-magnitude: flip all bits of negative values (larger
         // magnitude means smaller value) and the sign bit of the others.
         let bits = self.to_bits();
-        let ordered = if bits >> 31 == 1 { !bits } else { bits | (1 << 31) };
+        let ordered = if bits >> 31 == 1 {
+            !bits
+        } else {
+            bits | (1 << 31)
+        };
         (ordered >> (round << 3)) as u8
     }
 }
@@ -83,7 +87,11 @@ impl RadixType for f64 {
         // Floats are sign-magnitude: flip all bits of negative values (larger
         // magnitude means smaller value) and the sign bit of the others.
         let bits = self.to_bits();
-        let ordered = if bits >> 63 == 1 { !bits } else { bits | (1 << 63) };
+        let ordered = if bits >> 63 == 1 {
+            !bits
+        } else {
+            bits | (1 << 63)
+        };
         (ordered >> (round << 3)) as u8
     }
 }
